@@ -28,6 +28,16 @@ const (
 type gen struct {
 	rec  *ev.Rec
 	open map[string]bool
+	fn   bool // the case under construction uses fnEnv (variables named like functions)
+}
+
+// paths returns the catalogue of typ for the environment under construction: in fnEnv the
+// function-named variables are ordinary leaves of their type (and drawn often).
+func (g *gen) paths(t *rapid.T, base, fnNamed []string) []string {
+	if g.fn && rapid.IntRange(0, 1).Draw(t, "fnnamed") == 0 {
+		return fnNamed
+	}
+	return base
 }
 
 func newGen(rec *ev.Rec) *gen {
@@ -145,13 +155,13 @@ func (g *gen) leaf(t *rapid.T, typ string, litOK, callArg bool) Expr {
 	}
 	switch typ {
 	case "int":
-		return Expr{K: "path", V: pick(t, "ipath", intPaths)}
+		return Expr{K: "path", V: pick(t, "ipath", g.paths(t, intPaths, fnIntPaths))}
 	case "float":
 		return Expr{K: "path", V: pick(t, "fpath", g.argPaths(floatPaths, callArg))}
 	case "string":
-		return Expr{K: "path", V: pick(t, "spath", stringPaths)}
+		return Expr{K: "path", V: pick(t, "spath", g.paths(t, stringPaths, fnStringPaths))}
 	case "list":
-		return Expr{K: "path", V: pick(t, "lpath", listPaths)}
+		return Expr{K: "path", V: pick(t, "lpath", g.paths(t, listPaths, fnListPaths))}
 	case "map":
 		return Expr{K: "path", V: pick(t, "mpath", mapPaths)}
 	}
@@ -174,6 +184,9 @@ var callsOf = map[string][][]string{
 func (g *gen) callExpr(t *rapid.T, typ string, nonShared, top bool) Expr {
 	var cands [][]string
 	for _, c := range callsOf[typ] {
+		if _, bound := fnVars[c[0]]; bound && g.fn {
+			continue // the data binds this name: calling it is unspecified (the variable shadows the function)
+		}
 		if funcs[c[0]].shared || nonShared {
 			cands = append(cands, c)
 		}
@@ -356,12 +369,18 @@ func (g *gen) negCase(envID int, path string) Case {
 }
 
 func (g *gen) genExprCase(t *rapid.T) Case {
-	envID := rapid.IntRange(0, nEnvs-1).Draw(t, "env")
+	envID := rapid.IntRange(0, fnEnv).Draw(t, "env")
 	env := envOf(envID)
+	g.fn = envID == fnEnv
+	defer func() { g.fn = false }()
 	if rapid.IntRange(0, 14).Draw(t, "negfam") == 0 {
 		// negation of a non-bool path (documented as v-if="!show"): truthiness negated; only the
 		// agreement of the condition positions is asserted
-		return g.negCase(envID, pick(t, "negpath", append(append(append([]string{}, intPaths...), stringPaths...), floatPaths...)))
+		np := append(append(append([]string{}, intPaths...), stringPaths...), floatPaths...)
+		if g.fn {
+			np = append(append([]string{}, fnIntPaths...), fnStringPaths...)
+		}
+		return g.negCase(envID, pick(t, "negpath", np))
 	}
 	typ := pick(t, "type", []string{"bool", "bool", "bool", "int", "int", "float", "string", "string"})
 	d := pick(t, "depth", []int{0, 1, 1, 2, 2, 2, 3, 3, 3, 3})
@@ -763,6 +782,12 @@ func classify(c Case) (bool, []string) {
 			case "int", "float", "bool":
 				k = "A:lit-" + x.K
 			case "path":
+				if _, named := fnVars[strings.SplitN(x.V, "[", 2)[0]]; named {
+					if !seen["A:path-named-like-function"] {
+						seen["A:path-named-like-function"] = true
+						cls = append(cls, "A:path-named-like-function")
+					}
+				}
 				switch {
 				case strings.Contains(x.V, `["`) || strings.Contains(x.V, `['`):
 					k = "A:path-bracket-key"
